@@ -939,7 +939,7 @@ void bn_rec_sac(int8_t *b, size_t *len, const bn_t *k, const bn_t u, size_t c,
 			 * that length for every scalar, so that the length of the recoding
 			 * does not depend on the value being recoded. */
 			if (cof) {
-				l = RLC_MAX(l, RLC_CEIL(n, c * m) + 2);
+				l = RLC_MAX(l, RLC_CEIL(n, c * m) + 3);
 				l = RLC_MAX(l, bn_bits(t[i]) + 1);
 			}
 		}
